@@ -663,6 +663,9 @@ def run(tier: str) -> int:
         U.tup(B, B, U.uint(16), S, U.sarray(B, 9), S),
         U.tup(*([B] * 9), S, B, B, S, *([B] * 8), U.uint(64)),
         U.tup(S, B, S), U.tup(S, *([B] * 17), S, U.uint(8)),
+        # SEPARATE bool runs (bools split by a non-bool static member) between two dynamic members: only adjacent bools share a byte
+        U.tup(S, B, U.uint(8), B, U.uint(8), S), U.tup(S, B, B, U.uint(16), B, S, B, U.uint(8), B, B, U.darray(U.uint(8))),
+        U.tup(U.darray(U.uint(16)), B, A, B, B, B, U.uint(64), B, S, U.uint(8)), U.sarray(U.tup(S, B, U.uint(8), B, S), 2),
         U.tup(U.uint(64)), U.tup(B), U.tup(S), U.tup(U.tup(), U.uint(8)), U.tup(U.sarray(U.uint(8), 0), U.uint(64)),
         U.tup(A, A, A, A, A, A, A, A, S, U.uint(32), S),          # head offsets >= 256
         U.tup(U.sarray(U.BYTE, 300), U.uint(16), U.sarray(U.BYTE, 256), B),
